@@ -316,16 +316,21 @@ class PopFactory(object):
         self.base = base
         self.classes = {}
 
-    def cls(self, w):
-        w = tuple(float(x) for x in w)
-        if w not in self.classes:
+    def cls(self, w, int_weights=False):
+        """int_weights: the weights are Python integers (with integer values the weighted values stay integers, and the
+        numpy arrays built from them have an integer dtype)"""
+        w = tuple(int(x) for x in w) if int_weights else tuple(float(x) for x in w)
+        key = (w, bool(int_weights))
+        if key not in self.classes:
             F = type("F%d" % len(self.classes), (self.base.Fitness,), {"weights": w})
-            self.classes[w] = (type("Ind%d" % len(self.classes), (list,), {}), F)
-        return self.classes[w]
+            self.classes[key] = (type("Ind%d" % len(self.classes), (list,), {}), F)
+        return self.classes[key]
 
     def make(self, w, vals, vtype="float"):
         """vtype: how the fitness values are handed to the setter (float / int / numpy scalars / mixed)."""
-        I, F = self.cls(w)
+        intw = vtype in ("int", "npint") and all(float(x) == int(x) for x in w) and len(vals) % 2 == 0
+        self.int_weight_populations = getattr(self, "int_weight_populations", 0) + bool(intw)
+        I, F = self.cls(w, intw)
         conv = {"float": float, "int": int, "npfloat": numpy.float64, "npint": numpy.int64}
         pop = []
         for n, v in enumerate(vals):
